@@ -1173,15 +1173,15 @@ theorem cliTask_eq_twc (c : Coll) (hW : wf c = true) (p : List CName) (r : Excep
 
 /-! ### listings -/
 
-theorem flatKids_eq (cs : List (CName × Coll)) (anc : List CName) :
-    flatKids cs anc = cs.flatMap (fun kc => flatPairs kc.2 (anc ++ [kc.1])) := by
+theorem flatKids_eq (rad : Bool) (cs : List (CName × Coll)) (anc : List CName) :
+    flatKids rad cs anc = cs.flatMap (fun kc => flatPairs rad kc.2 (anc ++ [kc.1])) := by
   induction cs with
   | nil => simp [flatKids]
   | cons hd tl ih => obtain ⟨k, c⟩ := hd; simp [flatKids, ih]
 
-theorem flatPairs_mk (nm ad ts als cs dflt cfg) (anc : List CName) :
-    flatPairs (.mk nm ad ts als cs dflt cfg) anc =
-      ts.map (flatTask anc als dflt) ++ cs.flatMap (fun kc => flatPairs kc.2 (anc ++ [kc.1])) := by
+theorem flatPairs_mk (rad : Bool) (nm ad ts als cs dflt cfg) (anc : List CName) :
+    flatPairs rad (.mk nm ad ts als cs dflt cfg) anc =
+      ts.map (flatTask rad anc als dflt) ++ cs.flatMap (fun kc => flatPairs rad kc.2 (anc ++ [kc.1])) := by
   rw [flatPairs, flatKids_eq]
 
 /-- one task binding of the tree: where it lives, its binding name, whether it is its collection's
@@ -1205,13 +1205,16 @@ def bindingsKids : List (CName × Coll) → List CName → List Binding
   | (k, c) :: r, anc => bindings c (anc ++ [k]) ++ bindingsKids r anc
 end
 
-/-- how the flat format prints a binding -/
-def Binding.flat (b : Binding) : Entry :=
-  (b.anc ++ [b.key],
-   (if b.isDefault && !b.anc.isEmpty then [b.anc] else []) ++ b.aliases.map (fun a => b.anc ++ [a]))
+/-- how the flat format prints a binding (`rad` = the root's `auto_dash_names`: everything shown is
+    normalised by the root's `transform`) -/
+def Binding.flat (rad : Bool) (b : Binding) : Entry :=
+  ((b.anc ++ [b.key]).map (transform rad),
+   (if b.isDefault && !b.anc.isEmpty then [b.anc.map (transform rad)] else []) ++
+     b.aliases.map (fun a => (b.anc ++ [a]).map (transform rad)))
 
 /-- how the nested format prints a binding -/
-def Binding.nested (b : Binding) : NLine := .task b.anc b.key b.isDefault b.aliases
+def Binding.nested (rad : Bool) (b : Binding) : NLine :=
+  .task (b.anc.map (transform rad)) (transform rad b.key) b.isDefault (b.aliases.map (transform rad))
 
 def NLine.isTask : NLine → Bool
   | .task .. => true
@@ -1227,33 +1230,34 @@ def jsonTasksL : List JNode → List (CName × List CName)
 end
 
 mutual
-theorem flat_eq_bindings : ∀ (c : Coll) (anc : List CName), flatPairs c anc = (bindings c anc).map Binding.flat
+theorem flat_eq_bindings (rad : Bool) : ∀ (c : Coll) (anc : List CName),
+    flatPairs rad c anc = (bindings c anc).map (Binding.flat rad)
   | mk _ _ ts als cs dflt _, anc => by
-    rw [flatPairs, bindings, List.map_append, flatKids_eq_bindings cs anc, List.map_map]
+    rw [flatPairs, bindings, List.map_append, flatKids_eq_bindings rad cs anc, List.map_map]
     congr 1
-theorem flatKids_eq_bindings : ∀ (cs : List (CName × Coll)) (anc : List CName),
-    flatKids cs anc = (bindingsKids cs anc).map Binding.flat
+theorem flatKids_eq_bindings (rad : Bool) : ∀ (cs : List (CName × Coll)) (anc : List CName),
+    flatKids rad cs anc = (bindingsKids cs anc).map (Binding.flat rad)
   | [], _ => by simp [flatKids, bindingsKids]
   | (k, c) :: r, anc => by
-    rw [flatKids, bindingsKids, List.map_append, flat_eq_bindings c (anc ++ [k]), flatKids_eq_bindings r anc]
+    rw [flatKids, bindingsKids, List.map_append, flat_eq_bindings rad c (anc ++ [k]), flatKids_eq_bindings rad r anc]
 end
 
 mutual
-theorem nested_eq_bindings : ∀ (c : Coll) (anc : List CName),
-    (nestedPairs c anc).filter NLine.isTask = (bindings c anc).map Binding.nested
+theorem nested_eq_bindings (rad : Bool) : ∀ (c : Coll) (anc : List CName),
+    (nestedPairs rad c anc).filter NLine.isTask = (bindings c anc).map (Binding.nested rad)
   | mk _ _ ts als cs dflt _, anc => by
-    rw [nestedPairs, bindings, List.map_append, List.filter_append, nestedKids_eq_bindings cs anc, List.map_map]
+    rw [nestedPairs, bindings, List.map_append, List.filter_append, nestedKids_eq_bindings rad cs anc, List.map_map]
     congr 1
     induction ts with
     | nil => rfl
     | cons t tl ih => simp only [List.map_cons, List.filter_cons, nestedTask, NLine.isTask, if_true, ih]; rfl
-theorem nestedKids_eq_bindings : ∀ (cs : List (CName × Coll)) (anc : List CName),
-    (nestedKids cs anc).filter NLine.isTask = (bindingsKids cs anc).map Binding.nested
+theorem nestedKids_eq_bindings (rad : Bool) : ∀ (cs : List (CName × Coll)) (anc : List CName),
+    (nestedKids rad cs anc).filter NLine.isTask = (bindingsKids cs anc).map (Binding.nested rad)
   | [], _ => by simp [nestedKids, bindingsKids]
   | (k, c) :: r, anc => by
     rw [nestedKids, bindingsKids, List.map_append, List.cons_append, List.filter_cons]
     simp only [NLine.isTask, Bool.false_eq_true, if_false, List.filter_append]
-    rw [nested_eq_bindings c (anc ++ [k]), nestedKids_eq_bindings r anc]
+    rw [nested_eq_bindings rad c (anc ++ [k]), nestedKids_eq_bindings rad r anc]
 end
 
 mutual
@@ -1348,13 +1352,21 @@ theorem subName_uniform {ad : Bool} {sub : Coll} (hwf : wf sub = true) (hu : sub
 /-- `a` is a proper prefix of `n`: a collection path above the task -/
 def ProperPrefix (a n : List CName) : Prop := ∃ s, s ≠ [] ∧ a ++ s = n
 
-/-- how a binding relates to the `task_names` entry at the same position (`anc` = where the
-    collection producing the entry sits): same dotted name; every lexicon alias of the binding is an
-    alias of the entry; the entry has no further aliases except collection-name shortcuts -/
-def Matches (anc : List CName) (b : Binding) (e : Entry) : Prop :=
-  b.anc ++ [b.key] = anc ++ e.1 ∧
-  (∀ a ∈ b.aliases, b.anc ++ [a] ∈ e.2.map (anc ++ ·)) ∧
-  (∀ a ∈ e.2, anc ++ a ∈ b.aliases.map (fun x => b.anc ++ [x]) ∨ ProperPrefix (anc ++ a) (anc ++ e.1))
+/-- how a binding relates to the `task_names` entry at the same position (`anc` = raw binding names of
+    the collections above the one producing the entry; `rad` = the root's `auto_dash_names`, whose
+    `transform` both the CLI names and the listing apply last): same dotted name; every lexicon alias of
+    the binding is an alias of the entry; the entry has no further aliases except collection-name shortcuts -/
+def Matches (rad : Bool) (anc : List CName) (b : Binding) (e : Entry) : Prop :=
+  (b.anc ++ [b.key]).map (transform rad) = (anc ++ e.1).map (transform rad) ∧
+  (∀ a ∈ b.aliases, (b.anc ++ [a]).map (transform rad) ∈ e.2.map (fun q => (anc ++ q).map (transform rad))) ∧
+  (∀ q ∈ e.2, (anc ++ q).map (transform rad) ∈ b.aliases.map (fun x => (b.anc ++ [x]).map (transform rad)) ∨
+    ProperPrefix ((anc ++ q).map (transform rad)) ((anc ++ e.1).map (transform rad)))
+
+/-- what a parent's `subtask_name` adds is invisible once the root has normalised the name (last wins) -/
+theorem subName_norm (rad a : Bool) (anc : List CName) (k : CName) (q : List CName) :
+    (anc ++ subName a k q).map (transform rad) = ((anc ++ [k]) ++ q).map (transform rad) := by
+  simp only [subName, List.map_append, List.map_cons, List.append_assoc, List.cons_append,
+    List.nil_append, transform_comp, map_transform_comp]
 
 theorem bindingsKids_eq (cs : List (CName × Coll)) (anc : List CName) :
     bindingsKids cs anc = cs.flatMap (fun kc => bindings kc.2 (anc ++ [kc.1])) := by
@@ -1362,17 +1374,14 @@ theorem bindingsKids_eq (cs : List (CName × Coll)) (anc : List CName) :
   | nil => simp [bindingsKids]
   | cons hd tl ih => obtain ⟨k, c⟩ := hd; simp [bindingsKids, ih]
 
-/-- C10 `listing_once` core: in a well-formed tree with one `auto_dash_names` setting the task bindings
-    (= the lines of every listing format) correspond one-to-one, in order, to the `task_names` entries
-    (= the parser contexts) -/
-theorem bindings_match (c : Coll) : ∀ ad, wf c = true → uniformDash ad c = true →
-    ∀ anc, Pairs (Matches anc) (bindings c anc) (taskNames c) := by
+/-- C10 `listing_once` core, for EVERY tree and whatever `auto_dash_names` the collections have: the task
+    bindings (= the lines of every listing format) correspond one-to-one, in order, to the `task_names`
+    entries (= the parser contexts), names and aliases compared as the root normalises them -/
+theorem bindings_match (rad : Bool) (c : Coll) :
+    ∀ anc, Pairs (Matches rad anc) (bindings c anc) (taskNames c) := by
   induction c using ind with
   | h nm a ts als cs dflt cfg ih =>
-    intro ad hwf hu anc
-    obtain ⟨hW, hkids⟩ := (wf_mk ..).mp hwf
-    obtain ⟨ha, hukids⟩ := (uniformDash_mk ..).mp hu
-    subst ha
+    intro anc
     rw [bindings, bindingsKids_eq, taskNames_mk]
     apply Pairs.append
     · apply Pairs.map_map
@@ -1389,37 +1398,30 @@ theorem bindings_match (c : Coll) : ∀ ad, wf c = true → uniformDash ad c = t
         exact ⟨y, hy, rfl⟩
     · apply Pairs.flatMap
       rintro ⟨k, sub⟩ hm
-      have hsub := ih k sub hm a (hkids k sub hm) (hukids k sub hm) (anc ++ [k])
-      obtain ⟨_, _, hkfix, _⟩ := kid_key hW hm
-      have hua := uniformDash_autoDash (hukids k sub hm)
+      have hsub := ih k sub hm (anc ++ [k])
       simp only [kidEntries]
       apply Pairs.map_right _ hsub
       intro b e' he' ⟨h1, h2, h3⟩
       have hne := entry_names_ne_nil sub he'
-      have hprim : subName a k e'.1 = k :: e'.1 :=
-        subName_uniform (hkids k sub hm) hua hkfix (mem_acceptedNames.mpr ⟨e', he', Or.inl rfl⟩)
-      have hal : ∀ q ∈ e'.2, subName a k q = k :: q := fun q hq =>
-        subName_uniform (hkids k sub hm) hua hkfix (mem_acceptedNames.mpr ⟨e', he', Or.inr hq⟩)
       refine ⟨?_, ?_, ?_⟩
-      · simp only [prefixEntry, hprim]; rw [h1]; simp
+      · simp only [prefixEntry]; rw [subName_norm, h1]
       · intro x hx
         obtain ⟨q, hq, hqe⟩ := List.mem_map.mp (h2 x hx)
-        simp only [prefixEntry, List.map_append, List.mem_append, List.mem_map]
-        left
-        exact ⟨subName a k q, ⟨q, hq, rfl⟩, by rw [hal q hq, ← hqe]; simp⟩
+        exact List.mem_map.mpr ⟨subName a k q,
+          List.mem_append.mpr (Or.inl (List.mem_map.mpr ⟨q, hq, rfl⟩)), (subName_norm rad a anc k q).trans hqe⟩
       · intro x hx
         simp only [prefixEntry, List.mem_append, List.mem_map] at hx
+        simp only [prefixEntry]
+        rw [subName_norm rad a anc k e'.1]
         rcases hx with ⟨q, hq, rfl⟩ | hx
-        · rw [hal q hq]
-          simp only [prefixEntry, hprim]
-          rcases h3 q hq with h | ⟨s, hs, hse⟩
-          · left; simpa using h
-          · right; exact ⟨s, hs, by simpa using hse⟩
+        · rw [subName_norm]
+          exact h3 q hq
         · split at hx
           · simp at hx; subst hx
             right
-            simp only [prefixEntry, hprim]
-            exact ⟨e'.1, hne e'.1 (by simp [entryNames]), by simp⟩
+            refine ⟨e'.1.map (transform rad), ?_, by simp⟩
+            intro e
+            exact hne e'.1 (by simp [entryNames]) (List.map_eq_nil_iff.mp e)
           · simp at hx
 
 /-! ### dotted strings ↔ component lists -/
@@ -1695,18 +1697,52 @@ theorem count_eq_one_of_nodup {α : Type} [BEq α] [LawfulBEq α] (l : List α) 
       rw [List.count_cons_of_ne hx]
       exact ih h.2 hat
 
-/-- the dotted name under which the CLI knows a binding, and its aliases (in a tree with one
-    `auto_dash_names` setting) -/
-def Binding.cliName (b : Binding) : List CName := b.anc ++ [b.key]
-def Binding.cliAliases (b : Binding) : List (List CName) := b.aliases.map (fun a => b.anc ++ [a])
-def Binding.cli (b : Binding) : Entry := (b.cliName, b.cliAliases)
+/-- the dotted name under which the CLI knows a binding, and its aliases: the binding path as the root
+    (`rad` = its `auto_dash_names`) normalises it -/
+def Binding.cliName (rad : Bool) (b : Binding) : List CName := (b.anc ++ [b.key]).map (transform rad)
+def Binding.cliAliases (rad : Bool) (b : Binding) : List (List CName) :=
+  b.aliases.map (fun a => (b.anc ++ [a]).map (transform rad))
+def Binding.cli (rad : Bool) (b : Binding) : Entry := (b.cliName rad, b.cliAliases rad)
 
-/-- in a well-formed tree with one `auto_dash_names` setting the dotted binding names are, in order,
-    the primary names of `task_names` -/
-theorem bindings_names_eq_primaries (c : Coll) (hW : wf c = true) (hU : uniformDash c.autoDash c = true) :
-    (bindings c []).map Binding.cliName = primaries c := by
-  have h := bindings_match c c.autoDash hW hU []
-  exact Pairs.map_eq Binding.cliName (·.1) h (fun b e hm => by simpa [Binding.cliName] using hm.1)
+theorem map_transform_of_canonical {c : Coll} {p : List CName} (h : canonical c p) :
+    p.map (transform c.autoDash) = p :=
+  (List.map_congr_left (g := id) (fun z hz => (h.2 z hz).2)).trans (List.map_id _)
+
+/-- how a listed binding relates to the parser context at the same position: the listed name is the
+    primary name; every listed alias is an alias of the context; the context has no further alias except
+    collection-name shortcuts (proper prefixes of the name) -/
+def ListedAs (rad : Bool) (b : Binding) (e : Entry) : Prop :=
+  b.cliName rad = e.1 ∧ (∀ a ∈ b.cliAliases rad, a ∈ e.2) ∧
+  (∀ q ∈ e.2, q ∈ b.cliAliases rad ∨ ProperPrefix q e.1)
+
+/-- for EVERY well-formed tree (mixed `auto_dash_names` included) the bindings correspond one-to-one and
+    in order to the `task_names` entries -/
+theorem bindings_listed_as (c : Coll) (hW : wf c = true) :
+    Pairs (ListedAs c.autoDash) (bindings c []) (taskNames c) := by
+  have h := bindings_match c.autoDash c []
+  have h' := Pairs.map_right (S := ListedAs c.autoDash) id h (by
+    intro b e he ⟨h1, h2, h3⟩
+    have hc1 := map_transform_of_canonical (accepted_canonical c hW e.1 (mem_acceptedNames.mpr ⟨e, he, Or.inl rfl⟩))
+    have hc2 : ∀ q ∈ e.2, q.map (transform c.autoDash) = q := fun q hq =>
+      map_transform_of_canonical (accepted_canonical c hW q (mem_acceptedNames.mpr ⟨e, he, Or.inr hq⟩))
+    simp only [List.nil_append] at h1 h2 h3
+    refine ⟨by simpa [Binding.cliName, hc1] using h1, ?_, ?_⟩
+    · intro a ha
+      obtain ⟨x, hx, rfl⟩ := List.mem_map.mp ha
+      obtain ⟨q, hq, hqe⟩ := List.mem_map.mp (h2 x hx)
+      rw [← hqe, hc2 q hq]; exact hq
+    · intro q hq
+      have := h3 q hq
+      rw [hc2 q hq, hc1] at this
+      exact this)
+  simpa using h'
+
+/-- in a well-formed tree the dotted binding names, as the root normalises them, are in order the primary
+    names of `task_names` -/
+theorem bindings_names_eq_primaries (c : Coll) (hW : wf c = true) :
+    (bindings c []).map (Binding.cliName c.autoDash) = primaries c := by
+  have h := bindings_listed_as c hW
+  exact Pairs.map_eq (Binding.cliName c.autoDash) (fun e : Entry => e.1) h (fun _ _ hm => hm.1)
 
 /-! ### the three formats carry the same (name, aliases) pairs -/
 
@@ -1723,60 +1759,75 @@ def NLine.cli : NLine → Entry
 def lastComp (p : List CName) : CName := p.getLastD []
 def Entry.leaf (e : Entry) : CName × List CName := (lastComp e.1, e.2.map lastComp)
 
+/-- a JSON task record as the root would spell it -/
+def normRecord (rad : Bool) (r : CName × List CName) : CName × List CName :=
+  (transform rad r.1, r.2.map (transform rad))
+
 theorem lastComp_concat (anc : List CName) (x : CName) : lastComp (anc ++ [x]) = x := by
   simp [lastComp, List.getLastD_eq_getLast?]
 
-theorem flatDeclared_flat (b : Binding) : flatDeclared b.flat = b.cli := by
-  show (b.anc ++ [b.key], List.filter (fun a => a.length == (b.anc ++ [b.key]).length)
-      ((if (b.isDefault && !b.anc.isEmpty) = true then [b.anc] else []) ++ b.aliases.map (fun a => b.anc ++ [a]))) = _
-  have h1 : (if (b.isDefault && !b.anc.isEmpty) = true then [b.anc] else []).filter
-      (fun a => a.length == (b.anc ++ [b.key]).length) = [] := by
+theorem flatDeclared_flat (rad : Bool) (b : Binding) : flatDeclared (b.flat rad) = b.cli rad := by
+  show ((b.anc ++ [b.key]).map (transform rad),
+      List.filter (fun a => a.length == ((b.anc ++ [b.key]).map (transform rad)).length)
+      ((if (b.isDefault && !b.anc.isEmpty) = true then [b.anc.map (transform rad)] else []) ++
+        b.aliases.map (fun a => (b.anc ++ [a]).map (transform rad)))) = _
+  have h1 : (if (b.isDefault && !b.anc.isEmpty) = true then [b.anc.map (transform rad)] else []).filter
+      (fun a => a.length == ((b.anc ++ [b.key]).map (transform rad)).length) = [] := by
     split <;> simp
-  have h2 : (b.aliases.map (fun a => b.anc ++ [a])).filter
-      (fun a => a.length == (b.anc ++ [b.key]).length) = b.aliases.map (fun a => b.anc ++ [a]) := by
+  have h2 : (b.aliases.map (fun a => (b.anc ++ [a]).map (transform rad))).filter
+      (fun a => a.length == ((b.anc ++ [b.key]).map (transform rad)).length) =
+        b.aliases.map (fun a => (b.anc ++ [a]).map (transform rad)) := by
     apply List.filter_eq_self.mpr
     intro a ha
     obtain ⟨x, _, rfl⟩ := List.mem_map.mp ha
     simp
   rw [List.filter_append, h1, h2]; rfl
 
-theorem nested_cli (b : Binding) : b.nested.cli = b.cli := rfl
+theorem nested_cli (rad : Bool) (b : Binding) : (b.nested rad).cli = b.cli rad := by
+  simp [Binding.nested, NLine.cli, Binding.cli, Binding.cliName, Binding.cliAliases, List.map_map]
 
-theorem cli_leaf (b : Binding) : b.cli.leaf = (b.key, b.aliases) := by
-  simp only [Entry.leaf, Binding.cli, Binding.cliName, Binding.cliAliases, lastComp_concat, List.map_map]
+theorem cli_leaf (rad : Bool) (b : Binding) : (b.cli rad).leaf = normRecord rad (b.key, b.aliases) := by
+  simp only [Entry.leaf, Binding.cli, Binding.cliName, Binding.cliAliases, normRecord, List.map_append,
+    List.map_cons, List.map_nil, lastComp_concat, List.map_map]
   congr 1
-  have : (lastComp ∘ fun a => b.anc ++ [a]) = id := by funext a; simp [lastComp_concat]
-  rw [this, List.map_id]
+  apply List.map_congr_left
+  intro a _
+  simp [lastComp_concat]
 
 /-- C10 `listings_agree`: for EVERY tree the flat listing (declared aliases), the task lines of the
-    nested listing and the task records of the JSON listing carry, position by position, the same
-    (dotted binding name, aliases) pairs - the JSON records their last components. -/
+    nested listing and - spelled as the root spells them - the task records of the JSON listing carry,
+    position by position, the same (dotted name, aliases) pairs; the JSON records their last components. -/
 theorem listings_agree_all (c : Coll) :
-    (flatPairs c []).map flatDeclared = (bindings c []).map Binding.cli ∧
-    ((nestedPairs c []).filter NLine.isTask).map NLine.cli = (bindings c []).map Binding.cli ∧
-    jsonTasks (serialized c) = ((bindings c []).map Binding.cli).map Entry.leaf := by
+    (flatListing c).map flatDeclared = (bindings c []).map (Binding.cli c.autoDash) ∧
+    ((nestedListing c).filter NLine.isTask).map NLine.cli = (bindings c []).map (Binding.cli c.autoDash) ∧
+    (jsonTasks (serialized c)).map (normRecord c.autoDash) =
+      ((bindings c []).map (Binding.cli c.autoDash)).map Entry.leaf := by
   refine ⟨?_, ?_, ?_⟩
-  · rw [flat_eq_bindings, List.map_map]
-    exact List.map_congr_left (fun b _ => flatDeclared_flat b)
-  · rw [nested_eq_bindings, List.map_map]
-    exact List.map_congr_left (fun b _ => nested_cli b)
-  · rw [json_eq_bindings c [], List.map_map]
-    exact List.map_congr_left (fun b _ => (cli_leaf b).symm)
+  · rw [flatListing, flat_eq_bindings, List.map_map]
+    exact List.map_congr_left (fun b _ => flatDeclared_flat _ b)
+  · rw [nestedListing, nested_eq_bindings, List.map_map]
+    exact List.map_congr_left (fun b _ => nested_cli _ b)
+  · rw [json_eq_bindings c [], List.map_map, List.map_map]
+    exact List.map_congr_left (fun b _ => (cli_leaf _ b).symm)
 
-/-- C10 `listing_once`: in a well-formed tree with one `auto_dash_names` setting the names shown by the
-    flat listing are exactly the primary names of `task_names`, in order, and they are pairwise
-    distinct: every task appears exactly once under its primary name. -/
-theorem flat_names_once (c : Coll) (hW : wf c = true) (hU : uniformDash c.autoDash c = true) :
-    (flatPairs c []).map (·.1) = primaries c ∧ (primaries c).Nodup ∧
-    ∀ e ∈ taskNames c, ((flatPairs c []).map (·.1)).count e.1 = 1 := by
-  have hn : (flatPairs c []).map (·.1) = primaries c := by
-    rw [flat_eq_bindings, List.map_map, ← bindings_names_eq_primaries c hW hU]
+/-- C10 `listing_once`: in EVERY well-formed tree the names shown by the flat listing are exactly the
+    primary names of `task_names`, in order, and they are pairwise distinct: every task appears exactly
+    once under its primary name. -/
+theorem flat_names_once (c : Coll) (hW : wf c = true) :
+    (flatListing c).map (·.1) = primaries c ∧ (primaries c).Nodup ∧
+    ∀ e ∈ taskNames c, ((flatListing c).map (·.1)).count e.1 = 1 := by
+  have hn : (flatListing c).map (·.1) = primaries c := by
+    rw [flatListing, flat_eq_bindings, List.map_map, ← bindings_names_eq_primaries c hW]
     exact List.map_congr_left (fun b _ => rfl)
   have hd := primaries_nodup c hW
   refine ⟨hn, hd, ?_⟩
   intro e he
   rw [hn]
   exact count_eq_one_of_nodup _ hd _ (List.mem_map.mpr ⟨e, he, rfl⟩)
+
+/-- the flat listing before the repair "listings show names as normalized by the top-level collection":
+    each binding under the raw binding names on its path -/
+def flatNamesPinned (c : Coll) : List (List CName) := (bindings c []).map (fun b => b.anc ++ [b.key])
 
 /-! ### the behaviour before the repairs (for the counterexample theorems) -/
 
